@@ -330,3 +330,381 @@ def add_open_bindings(reg):
     reg.method_bindings[("IH5Record", "super.__init__")] = lambda cx, obj, *a, **k: None
     reg.add(LoadUserBlock())
     reg.add(CheckUblock()) if ("ih5/record.py", "IH5Record._check_ublock") not in reg.specs else None
+
+
+# ------------------------------------------------------------------------------------------------
+# record life cycle: effect order and frames (C02, C05, C11)
+
+T1_X = "T1 h5py.File(path, 'x'): creates the file, fails if it exists (never overwrites); File.close() flushes and releases"
+T2_UNLINK = "T2 Path.unlink() removes exactly that file"
+T3_HEX = "T3 hexdigest() is non-empty lowercase hex (so '<alg>:<hex>' is a valid QualHashsumStr)"
+T6_UUID = "T6 uuid1() returns values never returned before and unequal to stored ones"
+
+EXISTS = z3.Function("path_exists_at_entry", z3.StringSort(), z3.BoolSort())
+WRITE_KINDS = ("ubwrite", "unlink", "h5create", "mfwrite", "ovl-write")
+
+
+import contextlib  # noqa: E402
+
+
+@contextlib.contextmanager
+def at_entry(cx):
+    """Evaluate terms over the heap as it was at function entry (initial field arrays H0_*)."""
+    saved = cx.heap
+    cx.heap = {}
+    try:
+        yield
+    finally:
+        cx.heap = saved
+
+
+def entry_rec(a):
+    r = SObj(a.self.cls, name="self@entry")
+    r.fields.update(a.entry_fields)
+    return r
+
+
+def rec_obj(cx, name="self", cls="IH5Record"):
+    """An open record object satisfying the class invariant RecInv."""
+    r = SObj(cls, name=name)
+    r.fields["__files__"] = SSeq.fresh(TRef("H5File"), name + "_files")
+    r.fields["_ublocks"] = SMap.fresh(TPath(), TRef("IH5UserBlock"), name + "_ublocks")
+    r.fields["_closed"] = SBool(z3.Bool(name + "_closed"))
+    r.fields["_allow_patching"] = SBool(z3.Bool(name + "_allow_patching"))
+    return r
+
+
+def fname_at(cx, rec, j):
+    return SRef("H5File", files_of(rec).at_term(j)).py_getattr(cx, "filename").t
+
+
+def mode_at(cx, rec, j):
+    return SRef("H5File", files_of(rec).at_term(j)).py_getattr(cx, "mode").t
+
+
+def rec_inv(cx, rec, tag="inv"):
+    """RecInv: every open file has its user block in _ublocks; all but the newest file are committed
+    (carry a hash) and opened 'r'; the newest is either committed+'r' or uncommitted+'r+'; file names pairwise distinct."""
+    L = files_of(rec)
+    n = L.n
+    j, k = z3.Int(fresh_name(tag + "_j")), z3.Int(fresh_name(tag + "_k"))
+    uj, fj = ub_ref_at(cx, rec, j)
+    hs = uj.py_getattr(cx, "hdf5_hashsum")
+    R, RW = z3.StringVal("r"), z3.StringVal("r+")
+    ul, fl = ub_ref_at(cx, rec, n - 1)
+    return z3.And(
+        z3.ForAll([j], z3.Implies(z3.And(0 <= j, j < n), rec.fields["_ublocks"].has(fj))),
+        z3.ForAll([j], z3.Implies(z3.And(0 <= j, j < n - 1), z3.And(mode_at(cx, rec, j) == R, z3.Not(hs.isnone)))),
+        z3.Implies(n > 0, z3.Or(z3.And(mode_at(cx, rec, n - 1) == R, z3.Not(ul.py_getattr(cx, "hdf5_hashsum").isnone)), z3.And(mode_at(cx, rec, n - 1) == RW, ul.py_getattr(cx, "hdf5_hashsum").isnone))),
+        z3.ForAll([j, k], z3.Implies(z3.And(0 <= j, j < k, k < n), fname_at(cx, rec, j) != fname_at(cx, rec, k))),
+    )
+
+
+def has_writable_t(cx, rec):
+    n = files_of(rec).n
+    return z3.And(n > 0, mode_at(cx, rec, n - 1) == z3.StringVal("r+"))
+
+
+def fx_kinds(cx, start=0):
+    return [e[0] for e in cx.fx[start:]]
+
+
+def fx_paths_ok(cx, allowed_path_t, start=0):
+    """Every effect that names a path (other than pure reads) names `allowed_path_t`."""
+    conds = []
+    for e in cx.fx[start:]:
+        if e[0] in ("h5open", "h5close", "ubwrite", "unlink", "h5create", "mfwrite") and len(e) > 2:
+            conds.append(e[1] == allowed_path_t)
+    return z3.And(*conds) if conds else z3.BoolVal(True)
+
+
+def h5file_ctor2(cx, path, mode="r", **kw):
+    """h5py.File for life-cycle functions: additionally models mode 'x' (T1_X)."""
+    if isinstance(mode, str) and mode in ("x", "w-"):
+        pt = path_term(path)
+        if cx.decide(EXISTS(pt)):
+            cx.py_raise("FileExistsError", "exists")
+        r = SRef.fresh("H5File", "created_file")
+        cx.assume(z3.And(r.py_getattr(cx, "filename").t == pt, r.py_getattr(cx, "mode").t == z3.StringVal("r+")))
+        cx.effect("h5create", pt, mode)
+        return r
+    return h5file_ctor(cx, path, mode, **kw)
+
+
+class SaveUserBlock(FnSpec):
+    """IH5UserBlock.save as seen by callers: rewrites bytes of the user-block area of exactly that file (verified in c03)."""
+
+    file = "ih5/record.py"
+    qual = "IH5UserBlock.save"
+    props = ("C02", "C11")
+
+    def effects(self, cx, a):
+        cx.effect("ubwrite", path_term(a.filename), a.self.t)
+
+
+class CreateUserBlock(FnSpec):
+    file = "ih5/record.py"
+    qual = "IH5UserBlock.create"
+    props = ("C02", "C11")
+
+    def result(self, cx, a):
+        ub = SRef.fresh("IH5UserBlock", "new_ub")
+        prev = a.get("prev")
+        g = lambda n: ub.py_getattr(cx, n)  # noqa: E731
+        cx.assume(g("hdf5_hashsum").isnone)
+        if prev is None:
+            cx.assume(z3.And(g("patch_index").t == 0, g("prev_patch").isnone))
+        else:
+            p = prev.force(cx) if isinstance(prev, SMaybe) else prev
+            pg = lambda n: p.py_getattr(cx, n)  # noqa: E731
+            cx.assume(z3.And(g("record_uuid").t == pg("record_uuid").t, g("patch_index").t == pg("patch_index").t + 1, z3.Not(g("prev_patch").isnone), g("prev_patch").val.t == pg("patch_uuid").t, g("patch_uuid").t != pg("patch_uuid").t))
+        cx.ghost.setdefault("new_ubs", []).append(ub)
+        return ub
+
+
+class NextPatchPath(FnSpec):
+    """_next_patch_filepath as seen by callers: some path (string building verified in c03); freshness is not relied on."""
+
+    file = "ih5/record.py"
+    qual = "IH5Record._next_patch_filepath"
+    props = ("C02",)
+
+    def result(self, cx, a):
+        return PathVal(z3.String(fresh_name("next_patch_path")))
+
+
+class NewContainer(FnSpec):
+    file = "ih5/record.py"
+    qual = "IH5Record._new_container"
+    props = ("C02", "C11")
+
+    def init(self):
+        self.bindings["h5py"] = H5pyModule()
+
+    def setup(self, cx):
+        return A(cls=SClass("IH5Record"), path=PathVal(z3.String("new_path")), ub=SRef.fresh("IH5UserBlock", "ub"))
+
+    def raises(self, cx, a):
+        return {"OSError": z3.Or(EXISTS(path_term(a.path)), z3.Not(OPENABLE(path_term(a.path))))}
+
+    def on_raise(self, cx, a, exc):
+        st = a.get("fx0", 0)
+        return [("never-overwrites", z3.BoolVal("ubwrite" not in fx_kinds(cx, st) or "h5create" in fx_kinds(cx, st)), "a fresh container is created with mode 'x' (fails instead of overwriting)")]
+
+    def ensures(self, cx, a, res):
+        st = a.get("fx0", 0)
+        kinds = fx_kinds(cx, st)
+        pt = path_term(a.path)
+        out = [("effect-order", z3.BoolVal(kinds == ["h5create", "h5close", "ubwrite", "h5open"]), "create exclusively, close, pre-fill the user block, reopen writable"), ("only-this-file", fx_paths_ok(cx, pt, st), "only the new file is touched")]
+        if kinds == ["h5create", "h5close", "ubwrite", "h5open"]:
+            fx = cx.fx[st:]
+            out.append(("exclusive-create", z3.BoolVal(fx[0][2] == "x"), "mode 'x'"))
+            out.append(("user-block-is-the-given-one", fx[2][2] == a.ub.t, "the given user block is written"))
+            out.append(("reopened-writable", z3.BoolVal(fx[3][2] == "r+"), "reopened 'r+'"))
+        ok = isinstance(res, SRef)
+        out.append(("returns-writable-handle", z3.And(res.py_getattr(cx, "filename").t == pt, res.py_getattr(cx, "mode").t == z3.StringVal("r+")) if ok else z3.BoolVal(False), "returns the writable handle of the new file"))
+        return out
+
+    def bind_call(self, interp, cx, f, args, kwargs):
+        a = FnSpec.bind_call(self, interp, cx, f, args, kwargs)
+        a.fx0 = len(cx.fx)
+        return a
+
+    def effects(self, cx, a):
+        pt = path_term(a.path)
+        cx.effect("h5create", pt, "x")
+        cx.effect("h5close", pt)
+        cx.effect("ubwrite", pt, a.ub.t)
+        cx.effect("h5open", pt, "r+")
+
+    def result(self, cx, a):
+        r = SRef.fresh("H5File", "new_container")
+        cx.assume(z3.And(r.py_getattr(cx, "filename").t == path_term(a.path), r.py_getattr(cx, "mode").t == z3.StringVal("r+")))
+        return r
+
+
+class LifeCycle(FnSpec):
+    file = "ih5/record.py"
+    props = ("C02", "C11")
+
+    def init(self):
+        self.bindings["h5py"] = H5pyModule()
+        self.bindings["Path"] = path_ctor
+        self.bindings["QualHashsumStr"] = lambda cx, s: s  # T3_HEX
+        self.inline |= {"IH5Record._expect_open", "IH5Record._expect_not_ro", "IH5Record._ublock", "IH5Record._set_ublock", "IH5Record.mode", "IH5Record._has_writable"}
+
+    def setup(self, cx):
+        rec = rec_obj(cx)
+        a = A(self=rec)
+        a.old_files = files_of(rec).snapshot()
+        a.old_ublocks = rec.fields["_ublocks"].snapshot()
+        a.entry_fields = {"__files__": a.old_files, "_ublocks": a.old_ublocks, "_closed": rec.fields["_closed"], "_allow_patching": rec.fields["_allow_patching"]}
+        return a
+
+    def requires(self, cx, a):
+        rec = a.self
+        j = z3.Int(fresh_name("ex_j"))
+        return [("RecInv", rec_inv(cx, rec, "pre")), ("open-files-exist", z3.ForAll([j], z3.Implies(z3.And(0 <= j, j < files_of(rec).n), z3.And(EXISTS(fname_at(cx, rec, j)), OPENABLE(fname_at(cx, rec, j))))))]
+
+    def guards(self, cx, a):
+        rec = entry_rec(a)
+        return z3.Or(rec.fields["_closed"].t, z3.Not(rec.fields["_allow_patching"].t))
+
+    def writable_at_entry(self, cx, a):
+        with at_entry(cx):
+            return has_writable_t(cx, entry_rec(a))
+
+
+class CommitPatch(LifeCycle):
+    qual = "IH5Record.commit_patch"
+
+    def setup(self, cx):
+        a = LifeCycle.setup(self, cx)
+        a["__kwargs__"] = {}
+        return a
+
+    def raises(self, cx, a):
+        return {"ValueError": z3.Or(self.guards(cx, a), z3.Not(self.writable_at_entry(cx, a)))}
+
+    def on_raise(self, cx, a, exc):
+        return [("refused-without-effect", z3.BoolVal(not cx.fx), "a refused commit has no effect")]
+
+    def ensures(self, cx, a, res):
+        rec = a.self
+        n = a.old_files.n
+        last = SRef("H5File", a.old_files.at_term(n - 1)).py_getattr(cx, "filename").t
+        kinds = fx_kinds(cx)
+        order = ["h5close", "open-read", "ubwrite", "h5open"]
+        out = [("effect-order", z3.BoolVal(kinds == order), "close HDF5, hash payload, rewrite user block, reopen read-only — in this order"), ("only-the-uncommitted-container", fx_paths_ok(cx, last), "a commit touches only the uncommitted newest container")]
+        if kinds == order:
+            fx = cx.fx
+            out.append(("hash-read-is-the-newest-file", fx[1][1] == last, "the payload that is hashed is the newest container's"))
+            out.append(("reopened-read-only", z3.BoolVal(fx[3][2] == "r"), "the committed container is reopened read-only"))
+            ubl, _ = ub_ref_at(cx, rec, n - 1)
+            out.append(("written-block-is-the-records", fx[2][2] == ubl.t, "the user block written is the record's block of that container"))
+            hs = ubl.py_getattr(cx, "hdf5_hashsum")
+            out.append(("stored-hash-is-payload-hash", z3.And(z3.Not(hs.isnone), hs.val.t == payload_hash(cx, last)), "the stored hash is the hash of the payload as it is on disk after closing"))
+        L = files_of(rec)
+        j = z3.Int(fresh_name("cj"))
+        out.append(("older-files-untouched", z3.And(L.n == n, z3.ForAll([j], z3.Implies(z3.And(0 <= j, j < n - 1), L.at_term(j) == a.old_files.at_term(j)))), "all other containers stay as they are"))
+        out.append(("newest-now-read-only", z3.And(fname_at(cx, rec, n - 1) == last, mode_at(cx, rec, n - 1) == z3.StringVal("r")), "afterwards nothing is writable"))
+        out.append(("RecInv", rec_inv(cx, rec, "post"), "record invariant re-established"))
+        return out
+
+
+class CreatePatch(LifeCycle):
+    qual = "IH5Record.create_patch"
+
+    def init(self):
+        LifeCycle.init(self)
+        self.bindings["IH5UserBlock"] = SClass("IH5UserBlock")
+
+    def raises(self, cx, a):
+        return {"ValueError": z3.Or(self.guards(cx, a), self.writable_at_entry(cx, a)), "OSError": z3.BoolVal(True)}
+
+    raises_exact = False
+
+    def requires(self, cx, a):
+        return LifeCycle.requires(self, cx, a) + [("has-files", files_of(a.self).n > 0)]
+
+    def on_raise(self, cx, a, exc):
+        if exc.cls == "ValueError":
+            return [("refused-without-effect", z3.BoolVal(not cx.fx), "a refused create_patch has no effect")]
+        return [("failed-create-leaves-record-unchanged", z3.And(files_of(a.self).ext_eq(a.old_files), a.self.fields["_ublocks"].same(cx, a.old_ublocks)), "if the new file cannot be created the record object is unchanged")]
+
+    def ensures(self, cx, a, res):
+        rec = a.self
+        n = a.old_files.n
+        L = files_of(rec)
+        newp = fname_at(cx, rec, n)
+        j = z3.Int(fresh_name("pj"))
+        kinds = fx_kinds(cx)
+        out = [
+            ("no-refusal-when-allowed", z3.Not(z3.Or(self.guards(cx, a), self.writable_at_entry(cx, a))), "create_patch succeeds only on an open, patchable, fully committed record"),
+            ("one-new-file", z3.And(L.n == n + 1, z3.ForAll([j], z3.Implies(z3.And(0 <= j, j < n), L.at_term(j) == a.old_files.at_term(j)))), "existing containers stay; exactly one is appended"),
+            ("only-the-new-file-touched", fx_paths_ok(cx, newp), "every update lands exclusively in a new file"),
+            ("new-file-created-exclusively", z3.BoolVal(kinds.count("h5create") == 1 and "unlink" not in kinds), "the new file is created with mode 'x' (never overwrites)"),
+            ("new-file-writable", mode_at(cx, rec, n) == z3.StringVal("r+"), "the patch container is writable"),
+        ]
+        ubn, _ = ub_ref_at(cx, rec, n)
+        ubo, _ = ub_ref_at(cx, rec, n - 1)
+        g = lambda u, f: u.py_getattr(cx, f)  # noqa: E731
+        out.append(("patch-links-to-newest", z3.And(g(ubn, "record_uuid").t == g(ubo, "record_uuid").t, g(ubn, "patch_index").t == g(ubo, "patch_index").t + 1, z3.Not(g(ubn, "prev_patch").isnone), g(ubn, "prev_patch").val.t == g(ubo, "patch_uuid").t, g(ubn, "hdf5_hashsum").isnone), "the new patch continues the chain of the newest container and is uncommitted"))
+        return out
+
+
+class DeleteLatest(LifeCycle):
+    qual = "IH5Record._delete_latest_container"
+
+    def requires(self, cx, a):
+        return LifeCycle.requires(self, cx, a) + [("has-files", files_of(a.self).n > 0)]
+
+    def ensures(self, cx, a, res):
+        rec = a.self
+        n = a.old_files.n
+        last = SRef("H5File", a.old_files.at_term(n - 1)).py_getattr(cx, "filename").t
+        L = files_of(rec)
+        j = z3.Int(fresh_name("dj"))
+        kinds = fx_kinds(cx)
+        k = z3.String(fresh_name("dk"))
+        um, uo = rec.fields["_ublocks"], a.old_ublocks
+        return [
+            ("effect-order", z3.BoolVal(kinds == ["h5close", "unlink"]), "close, then remove the file"),
+            ("only-the-newest-file", fx_paths_ok(cx, last), "only the newest container file is removed"),
+            ("files-shrunk-by-one", z3.And(L.n == n - 1, z3.ForAll([j], z3.Implies(z3.And(0 <= j, j < n - 1), L.at_term(j) == a.old_files.at_term(j)))), "the remaining containers stay"),
+            ("ublock-entry-removed", z3.ForAll([k], z3.And(um.has(k) == z3.And(uo.has(k), k != last), z3.Implies(um.has(k), um.get_term(k) == uo.get_term(k)))), "exactly the user block of the removed container is dropped"),
+        ]
+
+    # callee side
+    def bind_call(self, interp, cx, f, args, kwargs):
+        a = FnSpec.bind_call(self, interp, cx, f, args, kwargs)
+        a.old_files = files_of(a.self).snapshot()
+        a.old_ublocks = a.self.fields["_ublocks"].snapshot()
+        return a
+
+    def effects(self, cx, a):
+        rec = a.self
+        n = a.old_files.n
+        last = SRef("H5File", a.old_files.at_term(n - 1)).py_getattr(cx, "filename").t
+        cx.effect("h5close", last)
+        cx.effect("unlink", last)
+        L = files_of(rec)
+        k = z3.Int(fresh_name("sl"))
+        L.t = L.make(n - 1, L.arr)
+        um = rec.fields["_ublocks"]
+        um.dom = z3.Store(um.dom, last, z3.BoolVal(False))
+
+
+class DiscardPatch(LifeCycle):
+    qual = "IH5Record.discard_patch"
+
+    def raises(self, cx, a):
+        return {"ValueError": z3.Or(self.guards(cx, a), z3.Not(self.writable_at_entry(cx, a)), a.old_files.n == 1)}
+
+    def on_raise(self, cx, a, exc):
+        return [("refused-without-effect", z3.BoolVal(not cx.fx), "a refused discard has no effect (the base container is never discarded)")]
+
+    def ensures(self, cx, a, res):
+        rec = a.self
+        n = a.old_files.n
+        last = SRef("H5File", a.old_files.at_term(n - 1)).py_getattr(cx, "filename").t
+        L = files_of(rec)
+        j = z3.Int(fresh_name("dj"))
+        return [
+            ("only-the-uncommitted-patch-removed", z3.And(fx_paths_ok(cx, last), z3.BoolVal(fx_kinds(cx) == ["h5close", "unlink"])), "discard removes exactly the uncommitted newest patch file"),
+            ("view-back-to-last-commit", z3.And(L.n == n - 1, z3.ForAll([j], z3.Implies(z3.And(0 <= j, j < n - 1), L.at_term(j) == a.old_files.at_term(j)))), "discard_patch returns the record to the committed containers"),
+            ("RecInv", rec_inv(cx, rec, "post"), "record invariant re-established"),
+        ]
+
+
+def add_lifecycle(reg):
+    reg.ctors["H5File"] = h5file_ctor2
+    reg.method_bindings[("H5File", "close")] = h5file_close
+    reg.method_bindings[("PathVal", "unlink")] = None
+    reg.add(SaveUserBlock())
+    reg.add(CreateUserBlock())
+    reg.add(NextPatchPath())
+    specs = [NewContainer(), CommitPatch(), CreatePatch(), DeleteLatest(), DiscardPatch()]
+    for s in specs:
+        reg.add(s)
+    return specs
